@@ -66,6 +66,7 @@ def parseParams (j : Json) : Except String Params := do
   let ti ← getStr j "tracking_id"
   let fc ← optCode j "finding_category"
   let ft ← optCode j "finding_type"
+  let method ← optCode j "method"
   let sites ← (← getArr j "finding_sites").toList.mapM parseCode
   let ms ← (← getArr j "measurements").toList.mapM (fun x => do
     let a ← x.getArr?
@@ -80,7 +81,7 @@ def parseParams (j : Json) : Except String Params := do
   let purpose ← optCode j "geometric_purpose"
   let ref ← parseRoi (← j.getObjVal? "ref")
   let template ← getBool j "template"
-  pure ⟨kind, tu, ti, fc, ft, sites, ms, es, purpose, ref, template⟩
+  pure ⟨kind, tu, ti, fc, ft, method, sites, ms, es, purpose, ref, template⟩
 
 def parseFilters (j : Json) : Except String Filters := do
   let tu ← optStr16 j "tracking_uid"
@@ -151,7 +152,7 @@ def handlers : List (String × Handler) := [
     pure (okJson (Json.mkObj [
       ("template_id", optS g.templateId), ("items", Json.arr (g.items.map itemJson).toArray),
       ("tracking_uid", optS (trackingUidOf g)), ("tracking_id", optS (trackingIdOf g)),
-      ("finding_type", optS (findingTypeOf g)), ("finding_category", optS (findingCategoryOf g)),
+      ("finding_type", optS (findingTypeOf g)), ("finding_category", optS (findingCategoryOf g)), ("method", optS (methodOf g)),
       ("finding_sites", Json.arr ((findingSitesOf g).map Json.str).toArray),
       ("measurements", pairsJson (measurementsOf g)), ("evaluations", pairsJson (evaluationsOf g)),
       ("reference_type", optS (match p.kind with
